@@ -230,7 +230,7 @@ Proof.
 Qed.
 
 Example dial_reaches_expected_fixed_nonvacuous :
-  verify (mkfixes true true true) Ed25519 0 0 (Some 2)
+  verify (mkfixes true true true true) Ed25519 0 0 (Some 2)
          [RawOne (mkcert (pub_to_cn 2) [URI true true (pub_to_cn 2)] (Some (SigBy 2 0 (pub_to_cn 2) (Some 5)))
                          5 SgSelf (-300) 7200 true false)] = Accept.
 Proof. reflexivity. Qed.
@@ -766,7 +766,7 @@ Qed.
    suite and message count *)
 Theorem repaired_link_satisfies_property holds own_tls htls r s h id msgs :
   (forall k, ~ In k holds -> own_tls (htls k) = false) ->
-  let fx := mkfixes true true true in
+  let fx := mkfixes true true true true in
   presentable fx holds own_tls htls h ->
   let o := link fx LTls r s h id msgs in
   link_property LTls r s holds h id (out_hs o) (out_disp o) (out_stamp o) (out_crash o).
@@ -811,7 +811,7 @@ Proof.
 Qed.
 
 Example repaired_link_nonvacuous :
-  let fx := mkfixes true true true in
+  let fx := mkfixes true true true true in
   let c := mkcert (pub_to_cn 2) [URI true true (pub_to_cn 2)] (Some (SigBy 2 0 (pub_to_cn 2) (Some 0)))
                   0 SgSelf (-300) 7200 true false in
   presentable fx [2; 3] (fun t => t <? 2) (fun _ => 9) (Hello [RawOne c] 0) /\
@@ -831,7 +831,7 @@ Definition signs_only_with_own_keys (holds : list key) (h : hello) : Prop :=
   forall c k n over tk, In (RawOne c) (chain_of h) -> c_sig c = Some (SigBy k n over tk) -> In k holds.
 
 Theorem f09_repaired_link_satisfies_property_without_relay holds r s h id msgs :
-  let fx := mkfixes true false true in
+  let fx := mkfixes true false true false in
   signs_only_with_own_keys holds h ->
   let o := link fx LTls r s h id msgs in
   link_property LTls r s holds h id (out_hs o) (out_disp o) (out_stamp o) (out_crash o).
